@@ -335,11 +335,66 @@ def single_faults(acc, d):
                 acc.fail(sig, dict(dialect=d, tokens=[list(t) for t in toks]), detail)
 
 
+def _small_documents():
+    T = gt.T
+    EQ, SC = T("=", "eq"), T(";", "semi")
+    one = T("1", "word", ("int", 1))
+    w = lambda t: T(t, "word", ("str", t))
+    return [
+        [T("x"), EQ, one, T("y"), EQ, w("z"), SC, T("w"), EQ, one],
+        [T("GROUP"), EQ, T("g"), T("a"), EQ, w("b"), T("c"), EQ, one, T("END_GROUP"),
+         T("d"), EQ, one],
+        [T("a"), EQ, T("(", "open"), w("b"), T(",", "comma"), one, T("<m>", "units", "m"),
+         T(")", "close"), T("c"), EQ, T('"s"', "quoted", ("str", "s"))],
+    ]
+
+
+def _fault_menu(n):
+    faults = []
+    for i in range(n):
+        faults += [("delete", i), ("dup", i), ("swap", i), ("truncate", i),
+                   ("badchar", i, 1), ("badunits", i), ("unclose", i),
+                   ("unclose-quote", i), ("badword", i), ("begin-form", i)]
+        faults += [("replace", i, k) for k in range(len(PUNCT))]
+    return faults
+
+
+def double_faults(acc, d, doc):
+    """Every ordered pair of single faults on a small document (the repair paths of
+    the permissive loader need two specific faults: 'x = y = z ; = 1')."""
+    base = _small_documents()[doc]
+    if refread.recognise(base, d)[0] != "ok":
+        raise RuntimeError("harness: small base document not accepted")
+    seen = set()
+    for f1 in _fault_menu(len(base)):
+        if acc.expired():
+            acc.notes["budget_exhausted"] = 1
+            return
+        once = apply_faults(base, [f1])
+        for f2 in _fault_menu(len(once)):
+            toks = apply_faults(once, [f2])
+            text = render(toks)
+            if text in seen:
+                continue
+            seen.add(text)
+            v, sig, detail = judge(d, toks)
+            acc.event(f"double:{v}")
+            if v == "ambiguous":
+                continue
+            nt = v in ("ill-rejected", "fail")
+            acc.case(key=d + "\0" + text, nontrivial=nt)
+            if v == "fail":
+                acc.fail(sig, dict(dialect=d, tokens=[list(t) for t in toks]), detail)
+
+
 def shards(tier, seed):
     n = 260 if tier == "quick" else 7000
     out = [("random_cases", dict(d=PARSERS[j % 6], n=n, seed=seed * 1000 + j))
            for j in range(18)]
     out += [("single_faults", dict(d=d)) for d in PARSERS]
+    for d in ("default", "ISISv", "PVL") if tier == "quick" else PARSERS:
+        out += [("double_faults", dict(d=d, doc=k))
+                for k in range(len(_small_documents()))]
     maxlen = 4 if tier == "quick" else 5
     for d in ("PVL", "default") if tier == "quick" else PARSERS:
         for length in range(1, maxlen + 1):
